@@ -4,12 +4,15 @@
    visit the keys in different orders.  Every such loop reachable from FSM.Apply is modelled here
    as a fold over a list that an environment [Env] chooses as SOME permutation of the map's keys:
 
-     AssignManualServiceVIPs  state/catalog.go   loop over assignedIPs; result maps.SliceOfKeys(modifiedEntries)
+     AssignManualServiceVIPs  state/catalog.go   loop over assignedIPs; result maps.SliceOfKeys(modifiedEntries), sorted
      writeUsageDeltas         state/usage.go     loop over usageDeltas, one usage row per key
      updateMeshTopology       state/catalog.go   loop over oldUpstreams, one mesh-topology row per key
      ensureServiceTxn         state/catalog.go   `for key, addr := range addrs { svc.TaggedAddresses[key] = addr }`
-     validateMetadata         structs/structs.go first invalid pair in map order is named in the error
-     validateJWTProvider      state/config_entry.go  one error line per missing provider, in map order
+     validateMetadata         structs/structs.go keys collected in map order, sorted; first invalid pair named
+     validateJWTProvider      state/config_entry.go  names collected in map order, sorted; one line per missing one
+
+   (The last three return / report in sorted order since the fixes 9d6116b, 7ea9e44, 281c379; before
+   them the raw map order reached the result and the error texts.)
 
    Same verbs, same order of effects, same early returns as the Go code.  std++ style.  No proofs. *)
 From stdpp Require Import gmap strings sorting.
@@ -92,11 +95,8 @@ Definition assign_manual (e1 e2 : Env) (idx : N) (svc : string) (ips : list stri
     let s2 := if equal_map_keys (v_manual row) ipset then s1
               else s1 <| vips ::= <[svc := row <| v_manual := ssort ips |> <| v_modify := idx |>]> |>
                       <| vindex ::= index_max idx |> in
-    (s2, VRes true (order e2 modified))       (* maps.SliceOfKeys(modifiedEntries) *)
+    (s2, VRes true (ssort (order e2 modified)))   (* maps.SliceOfKeys(modifiedEntries), then sort.Slice by name *)
   end.
-
-(* what a client can rely on: the set *)
-Definition canon_vres (r : vres) : vres := VRes (r_found r) (ssort (r_unassigned r)).
 
 (* the other commands that touch the table, as far as manual IPs are concerned *)
 Inductive vcmd :=
@@ -155,10 +155,13 @@ Definition prune_old_upstreams (idx : N) (downstream : string) (inserted : gset 
 Definition merge_tagged (addrs : list (string * (string * N))) (m : gmap string (string * N))
   : gmap string (string * N) := foldl (fun m kv => <[kv.1 := kv.2]> m) m addrs.
 
-(* ---------- error texts that name whatever the map iteration met first ---------- *)
-(* validateMetadata: returns on the first invalid pair, naming it *)
-Definition validate_meta (bad : string * string -> bool) (pairs : list (string * string)) : option (string * string) :=
-  head (filter (fun kv => bad kv = true) pairs).
-(* validateJWTProvider: one line per missing provider, appended in iteration order *)
+(* ---------- error texts built from the keys of a map ---------- *)
+(* validateMetadata: the keys are collected (in map order) and sorted; the first invalid pair in that
+   order is named *)
+Definition validate_meta (e : Env) (bad : string * string -> bool) (meta : gmap string string) : option (string * string) :=
+  let keys := ssort (order e (elements (dom meta))) in
+  head (filter (fun kv => bad kv = true) (omap (fun k => (fun v => (k, v)) <$> meta !! k) keys)).
+(* validateJWTProvider: the referenced names are collected (in map order) and sorted; one line per
+   missing provider *)
 Definition missing_providers (known : gset string) (referenced : list string) : list string :=
-  filter (fun p => p ∉ known) referenced.
+  filter (fun p => p ∉ known) (ssort referenced).
